@@ -39,12 +39,15 @@ pub enum REntry {
     StrMulti,
     /// ... and through the string closure helper
     WdStr,
+    /// the text is a string field of an outer document read with the string closure helper; the closure
+    /// deserializes the outer document and then the embedded text with `from_str`, and returns that error
+    WdNested,
     Reader { chunking: Chunking, faults: Vec<ReadFault> },
 }
 
 impl REntry {
     pub fn is_string(&self) -> bool {
-        matches!(self, REntry::Str | REntry::StrMulti | REntry::WdStr)
+        matches!(self, REntry::Str | REntry::StrMulti | REntry::WdStr | REntry::WdNested)
     }
 }
 
@@ -181,6 +184,15 @@ thread_local! {
     static LAST_READER: std::cell::RefCell<Option<SimReader>> = const { std::cell::RefCell::new(None) };
 }
 
+#[derive(Serialize, Deserialize)]
+struct NestOuter {
+    k1: i32,
+    k2_a_line_much_longer_than_the_lines_of_the_embedded_text_so_that_columns_of_it_exist_here: i32,
+    k3: Vec<i32>,
+    embedded: String,
+    k5: i32,
+}
+
 fn parse(c: &RenderCase) -> Option<Result<(), serde_saphyr::Error>> {
     LAST_READER.with(|l| *l.borrow_mut() = None);
     #[allow(deprecated)]
@@ -206,6 +218,38 @@ fn parse(c: &RenderCase) -> Option<Result<(), serde_saphyr::Error>> {
                     })
                     .ok(),
                 },
+                REntry::WdNested => {
+                    let inner = c.doc.as_str()?;
+                    let outer = serde_saphyr::to_string(&NestOuter {
+                        k1: 1,
+                        k2_a_line_much_longer_than_the_lines_of_the_embedded_text_so_that_columns_of_it_exist_here: 12345,
+                        k3: vec![1, 2, 3],
+                        embedded: inner.to_string(),
+                        k5: 5,
+                    })
+                    .ok()?;
+                    #[allow(deprecated)]
+                    let opts2 = serde_saphyr::options! { crop_radius: c.radius, with_snippet: c.with_snippet };
+                    let mut from_inner = false;
+                    let r = guard(|| {
+                        serde_saphyr::with_deserializer_from_str_with_options(&outer, opts, |de| {
+                            let o = <NestOuter as Deserialize>::deserialize(de)?;
+                            if o.embedded != inner {
+                                return Ok(());
+                            }
+                            let r = serde_saphyr::from_str_with_options::<$t>(&o.embedded, opts2).map(|_| ());
+                            from_inner = r.is_err();
+                            r
+                        })
+                    })
+                    .ok();
+                    // (only the error of the embedded text is looked at: a text that does not survive being
+                    // written and read back as a string field fails the outer document, or not at all)
+                    if !from_inner {
+                        return None;
+                    }
+                    r
+                }
                 REntry::Reader { chunking, faults } => {
                     let rd = SimReader::new(
                         &reader_bytes(c),
@@ -232,11 +276,11 @@ fn parse(c: &RenderCase) -> Option<Result<(), serde_saphyr::Error>> {
                 let s = c.doc.as_str()?;
                 guard(|| serde_saphyr::from_multiple_with_options_validate::<ValidatorListDoc>(s, opts).map(|_| ())).ok()
             }
-            (REntry::Str | REntry::WdStr, RTarget::GardeMap) => {
+            (REntry::Str | REntry::WdStr | REntry::WdNested, RTarget::GardeMap) => {
                 let s = c.doc.as_str()?;
                 guard(|| serde_saphyr::from_str_with_options_valid::<GardeMapDoc>(s, opts).map(|_| ())).ok()
             }
-            (REntry::Str | REntry::WdStr, _) => {
+            (REntry::Str | REntry::WdStr | REntry::WdNested, _) => {
                 let s = c.doc.as_str()?;
                 guard(|| serde_saphyr::from_str_with_options_validate::<ValidatorListDoc>(s, opts).map(|_| ())).ok()
             }
@@ -405,6 +449,15 @@ pub fn exec(c: &RenderCase, st: &mut Stats) -> Vec<Viol> {
     st.note(&format!("{}@{}:{}", info.kind, info.line, info.col));
     let has_snippet = matches!(e, serde_saphyr::Error::WithSnippet { .. });
     st.bump(if has_snippet { "snippet.present" } else { "snippet.absent" });
+    if has_snippet && (!c.with_snippet || c.radius == 0) {
+        out.push(mk(
+            "snippet-despite-switched-off",
+            format!(
+                "Options {{ with_snippet: {}, crop_radius: {} }}: the returned error still carries the source text and renders a window",
+                c.with_snippet, c.radius
+            ),
+        ));
+    }
     if let REntry::Reader { .. } = &c.entry {
         st.bump(if has_snippet { "reader.snippet_present" } else { "reader.snippet_absent" });
     }
@@ -428,8 +481,10 @@ pub fn exec(c: &RenderCase, st: &mut Stats) -> Vec<Viol> {
     let text = text_owned.strip_prefix('\u{feff}').unwrap_or(&text_owned);
     let orig_lines: Vec<&str> = text.split('\n').map(|l| l.strip_suffix('\r').unwrap_or(l)).collect();
     let mut texts: Vec<(&str, String)> = rendered.texts.iter().map(|(n, t)| (*n, t.clone())).collect();
-    if c.doc.as_str().is_some() && c.entry.is_string() {
-        // the caller hands the adapter the text it parsed, byte-order mark included
+    let fault_free_reader = matches!(&c.entry, REntry::Reader { faults, .. } if faults.is_empty()) && c.utf16.is_none();
+    if c.doc.as_str().is_some() && (c.entry.is_string() || fault_free_reader) {
+        // the caller hands the adapter the text it parsed, byte-order mark included (for a reader entry: the
+        // text the reader delivered; its errors carry no byte offsets, the label is placed by other means)
         match lab::render_miette(&e, &text_owned) {
             Ok(t) => texts.push(("miette", t)),
             Err(p) => out.push(mk("render-panics", format!("miette: {p}"))),
@@ -981,9 +1036,10 @@ pub fn gen_case(tier: Tier, seed: u64, idx: u64) -> Case {
     };
     let entry = if member < 3 {
         // the three string entry points attach their snippets in separate places: rotate over the groups
-        match (group + member) % 3 {
+        match (group + member) % 4 {
             0 => REntry::Str,
             1 => REntry::StrMulti,
+            2 => REntry::WdNested,
             _ => REntry::WdStr,
         }
     } else {
@@ -1028,6 +1084,30 @@ pub fn gen_case(tier: Tier, seed: u64, idx: u64) -> Case {
                 let eol = if lines[i].ends_with("\r\n") { "\r\n" } else if lines[i].ends_with('\n') { "\n" } else { "" };
                 lines[i] = format!("---{eol}");
             }
+            doc = lines.concat();
+        }
+    }
+    // a reserved directive with multi-byte parameters in front of the document (the parser's character index
+    // counts such text in bytes; positions derived from it drift away from line and column): the first two
+    // lines, when they are healthy ones, become the directive and the `---` that must follow it
+    if matches!(target, RTarget::MapVec | RTarget::MapInt | RTarget::MapEnum) && drng.chance(1, 5) {
+        let healthy = |l: &str| -> bool {
+            let body = l.trim_end_matches(['\r', '\n']);
+            match body.split_once(": ") {
+                Some((k, v)) => {
+                    k.starts_with('k')
+                        && !k.starts_with('"')
+                        && (v == "Alpha" || v == "Beta" || (!v.is_empty() && v.chars().all(|c| c.is_ascii_digit() || " ,[]".contains(c))))
+                }
+                None => false,
+            }
+        };
+        let mut lines: Vec<String> = doc.split_inclusive('\n').map(|x| x.to_string()).collect();
+        if lines.len() > 3 && healthy(&lines[0]) && healthy(&lines[1]) && !lines.iter().any(|l| l.starts_with("---")) {
+            let eol = |l: &str| if l.ends_with("\r\n") { "\r\n" } else { "\n" };
+            let param = drng.pick(&["日本語日本語日本語", "é", "😀😀😀😀 ü", "ab"]).repeat(drng.range(1, 4));
+            lines[0] = format!("%FOO {param}{}", eol(&lines[0]));
+            lines[1] = format!("---{}", eol(&lines[1]));
             doc = lines.concat();
         }
     }
